@@ -276,6 +276,29 @@ fn oracle(s: &ProgScene<X>, t: &Trace) -> Vec<Violation> {
             }
         }
     }
+    // (h) identity as others see it: an actor that subscribes itself to a broker topic in
+    // started() does so again after every restart - being the same actor, that is still one
+    // subscription, and a publication reaches it exactly once
+    if s.roles[0].started_actions.iter().any(|a| matches!(a, Action::Subscribe { topic: 1 })) && t.res.end == crate::vexec::EndReason::Quiescent {
+        for cs in &s.clients {
+            for op in &cs.ops {
+                if let Op::Cmd(_, cmd_id, Action::Publish { topic: 1, id }) = op {
+                    if an.exit_of_msg(0, *cmd_id).is_none() {
+                        continue;
+                    }
+                    crate::check::oblige("identity-kept-across-restart");
+                    let got = an.enters.iter().filter(|e| e.a == 0 && e.cb == (Cb::Topic { topic: 1, id: *id })).count();
+                    if got != 1 {
+                        out.push(Violation {
+                            clause: "identity-kept-across-restart",
+                            key: format!("C07/subscription-multiplied-by-restart/strategy={sk}"),
+                            detail: format!("the actor subscribes itself in started(); after its restarts publication {id} was delivered to it {got} time(s), expected 1"),
+                        });
+                    }
+                }
+            }
+        }
+    }
     out
 }
 
@@ -583,6 +606,17 @@ fn cases(tier: Tier) -> Vec<Case> {
             }
         }
     }
+    // the actor subscribes itself to a broker topic in started(); restarted once or twice, then a
+    // publication (which it makes itself, on command)
+    for &strat in &[Strat::Default, Strat::Recreate] {
+        for &mb in &[Mailbox::U, Mailbox::B(1)] {
+            let publish = R::CmdTimer(Action::Publish { topic: 1, id: 77 });
+            // (the client keeps its handle for two more ticks: the broker delivers to a live actor)
+            for p in [vec![R::Restart, R::Call, publish, R::Sleep(2)], vec![R::Restart, R::Call, R::CmdRestart, R::Call, publish, R::Sleep(2)], vec![R::Restart, R::Sleep(1), R::Restart, R::Call, publish, R::Sleep(2)]] {
+                v.push(make_case(&[p], strat, mb, None, &[Action::Subscribe { topic: 1 }], 20, None));
+            }
+        }
+    }
     // timers registered in the stopped() hook of the incarnation that is going away
     for ts in [vec![Action::DelayedSend { timer: 7, delay: 2 }], vec![Action::Interval { timer: 7, period: 2 }], vec![Action::DelayedExec { timer: 7, delay: 1 }, Action::IntervalWith { timer: 8, period: 3 }]] {
         for &strat in &[Strat::Default, Strat::Recreate] {
@@ -620,7 +654,7 @@ pub fn property() -> Property {
     Property {
         id: "C07",
         cases,
-        clauses: &["behaves-like-fresh", "current-timers-keep-firing", "incarnation-bounds", "restart-callbacks", "start-failure-on-restart-terminates", "state-carried-or-reset"],
+        clauses: &["behaves-like-fresh", "identity-kept-across-restart", "current-timers-keep-firing", "incarnation-bounds", "restart-callbacks", "start-failure-on-restart-terminates", "state-carried-or-reset"],
         full_rerun_check: true,
         assumptions: &[
             "handlers take no virtual time in the timer scenes, so a tick handled later than the start of the next incarnation must have fired after that start",
